@@ -172,7 +172,10 @@ struct List
         using T = typename Di::type;
         if constexpr (Di::kind == P)
         {
-            return VT<T>::make(e.f[I][0]);
+            if constexpr (is_count(I))
+                return static_cast<T>(e.f[I][0]);  // the span length itself
+            else
+                return VT<T>::make(e.f[I][0]);
         }
         else
         {
@@ -204,7 +207,10 @@ struct List
         using T = typename Di::type;
         if constexpr (Di::kind == P)
         {
-            out.push_back(VT<T>::read(cntgs::get<I>(r)));
+            if constexpr (is_count(I))
+                out.push_back(static_cast<int>(cntgs::get<I>(r)));
+            else
+                out.push_back(VT<T>::read(cntgs::get<I>(r)));
         }
         else
         {
